@@ -210,30 +210,7 @@ var propC01 = &Prop[InstCase]{
 			k := 0
 			for _, f := range allInstForms() {
 				for _, mode := range []int{16, 32} {
-					doms := make([][]sem.Operand, len(f.Slots))
-					wide := -1
-					for i, sl := range f.Slots {
-						doms[i] = slotDomain(sl, true)
-						if len(doms[i]) > 8 || sl == "moffs" {
-							wide = i
-						}
-					}
-					n := 1
-					if wide >= 0 {
-						n = len(doms[wide])
-					}
-					for j := 0; j < n; j++ {
-						ops := make([]sem.Operand, len(f.Slots))
-						for i := range f.Slots {
-							if i == wide {
-								ops[i] = doms[i][j]
-							} else {
-								ops[i] = doms[i][(k+i)%len(doms[i])]
-							}
-						}
-						k++
-						yield(InstCase{Mode: mode, St: sem.Stmt{Mn: f.Mn, Ops: ops}, Cls: f.Class})
-					}
+					enumFormReduced(f, &k, func(st sem.Stmt) { yield(InstCase{Mode: mode, St: st, Cls: f.Class}) })
 				}
 			}
 			return false
